@@ -24,7 +24,7 @@ import (
 const (
 	localAddr  = "a@example.net/x"
 	remoteAddr = "b@example.net/y"
-	watchdog   = 3 * time.Second
+	watchdog   = 10 * time.Second
 )
 
 // wstanza is one top-level element written by the session, projected.
